@@ -56,7 +56,9 @@ fn main() {
         i += 2;
     }
     // keep panic messages of the library out of the output (they are caught and reported)
-    std::panic::set_hook(Box::new(|_| {}));
+    if std::env::var("MRL_HARNESS_PANICS").is_err() {
+        std::panic::set_hook(Box::new(|_| {}));
+    }
     let code = camp::run(&args);
     std::process::exit(code);
 }
